@@ -37,14 +37,28 @@ CLAIMS = {
             "and the division lemma; symbolic products uninterpreted with instantiated facts, counterexamples refined with real multiplication).", "3 (C14)",
             "symbolic execution of rustc MIR + z3 (division lemma, UF multiplication + refinement); native replay"),
     "C08": (E2TXT + " is_gregorian_valid over every i32 x u8^5 x u32 field combination against the month-length / 4-100-400 / leap-second-day rules restated from the statement (leap-second days generated from the data files); "
-            "maybe_from_gregorian with the year symbolic inside windows (loop forks once per year) and every other field and the scale fully symbolic against Hinnant's closed-form day count; "
-            "gregorian_epoch_offset enters E2 through a contract that Kani/CBMC decides on the real code.", "3 (C08)",
-            "symbolic execution of rustc MIR + z3 (validity at full width; day count in year windows); Kani/CBMC for the offset contract; native replay"),
+            "maybe_from_gregorian for every year in +/-3 000 000 at once (the two leap-day loops discharged by inductive invariants) and, as a twin, with the year symbolic inside windows (loop forks once per year), every other field and the scale fully symbolic, against closed-form day counts; "
+            "gregorian_epoch_offset enters E2 through a contract that Kani/CBMC decides on the real code.", "3 (C08), 8.1",
+            "symbolic execution of rustc MIR + z3/cvc5 (validity at full width; day count for every year in +/-3 000 000 by loop invariants, one inductive step per loop); Kani/CBMC for the offset contract; native replay"),
     "C11": (E2TXT + " Duration::decompose (sign, component ranges, exact weighted sum), subdivision, and the Epoch hours..nanoseconds accessors, for every canonical duration (numeric half of the property; text forms not claimed).", "3 (C11)",
             "symbolic execution of rustc MIR + z3 (integer SMT, full width, external solver portfolio); native replay"),
     "C16": (E2TXT + " Epoch::weekday / weekday_utc against floor(day index) mod 7 at full width for the uniform scales and UTC-labelled epochs, next/previous through the weekday contract; "
             "Weekday conversions and arithmetic (all 7 x 256 and 49 combinations) by Kani/CBMC.", "3 (C16)",
             "symbolic execution of rustc MIR + z3 (full width); Kani/CBMC exhaustive-symbolic for Weekday arithmetic; native replay"),
+    "C09": (E2TXT + " Epoch::compute_gregorian (the decomposition behind every Gregorian accessor and text form) for every elapsed time with |centuries| <= 30000 in all nine scales: "
+            "its four loops are discharged by inductive invariants (one arbitrary iteration each, leap-year count as an uninterpreted function with solver-checked recurrence instances), its float values run in the "
+            "exact-integer subset of binary64 with every side condition solver-checked; the fields must be a valid civil date-time whose closed-form day count and time of day equal the elapsed time. "
+            "The IEEE-754 division fact used is decided bit-precisely by Kani/CBMC; Duration arithmetic, decompose, is_leap_year and gregorian_epoch_offset enter through contracts whose deciding obligations are re-run in this check.", "8.1, 8.2 (C09)",
+            "symbolic execution of rustc MIR + z3/cvc5 with loop invariants (one inductive step per loop, no unrolling); Kani/CBMC for the float division lemma and the offset contract; native replay"),
+    "C17": ("Kani/CBMC bounded model checking of the real JD / MJD / UNIX code: duration-valued views equal elapsed time in the named scale + the statement's constants to the nanosecond (lexicographic carry model, no products); "
+            "every float-valued view and every float constructor is decided to hand exactly (that shifted duration, that unit) / (x - constant, that unit) to Duration::to_unit / Unit x f64, which are replaced by recording stubs (their own behaviour is C18); "
+            "UNIX views against the IERS oracle table for every UTC instant 1900-2100. Ulp-level accuracy of the float renderings is outside.", "8.2 (C17)",
+            "bounded model checking (Kani/CBMC SAT) with recording stubs; native replay of counterexamples"),
+    "C18": ("Kani/CBMC bounded model checking of Unit x f64 / f64 x Unit for all 2^64 f64 bit patterns, one harness per unit: never panics, the nanosecond count handed to the integer constructors is the IEEE product truncated toward zero, "
+            "the 64-bit constructor is used only where its cast cannot saturate, a bound is returned only beyond the range and on the side of the sign; the integer constructors are recording stubs whose contracts are decided at full width by "
+            "the MIR engine (C02 obligations, re-run in this check); from_<unit> constructors and f64 TimeUnits helpers; exactness of whole nanosecond counts below 2^53; to_unit / to_seconds finiteness and sign; Duration x integer-valued f64. "
+            "Ulp bounds and Duration x non-integer f64 are outside.", "8.2 (C18)",
+            "bounded model checking (Kani/CBMC SAT, bit-precise IEEE doubles) with recording stubs + symbolic execution of rustc MIR for the stubbed constructors; native replay"),
     "C03": ("Kani/CBMC bounded model checking of the real Duration comparison and equality code over all pairs/triples of constructor inputs; "
             "solver verdict per obligation, counterexamples replayed natively before being reported.",
             "3 (C03)", "bounded model checking (Kani/CBMC SAT) over symbolic inputs; native replay of counterexamples"),
@@ -86,7 +100,7 @@ def main():
                   "source_commits": [], "add_only": True},
         "engines": [
             {"name": "kani", "path": "vlib/kani.py + harness/*.rs", "serves_properties": sorted(CLAIMS), "kind_free_text": "Kani 0.68 / CBMC 6.11 bounded model checking of the crate (regenerated copy), CaDiCaL"},
-            {"name": "mirsym", "path": "vlib/mirsym/", "serves_properties": [], "kind_free_text": "symbolic execution of rustc MIR into integer SMT (z3), cvc5 cross-check"},
+            {"name": "mirsym", "path": "vlib/mirsym/", "serves_properties": sorted(k for k in CLAIMS if k not in ("C03", "C06", "C17")), "kind_free_text": "symbolic execution of rustc MIR into integer SMT (z3), cvc5 cross-check"},
         ],
         "checks": checks,
         "not_applicable": na,
